@@ -32,6 +32,20 @@ STRENGTHENED = {
     "C20-1": "`spec/objects/probe/MCCMProbe.tla` (transition cover x read battery) incl. save/load and to_synodic in the quick tier",
     "C01-4": "`EnergyDecomposition` in Field.tla; the split API (kinetic_energy, effective_potential, gravitational_potential, distances) bound at the exact witness points",
     "C04-3": "normal-form reduction `C^T Hess(H2) C` for all five points with the Hessian taken from the field's Jacobian at the point (L4/L5 had only symplecticity)",
+    "C08-3": "served history on one pipeline: inverse expansions first, forward next, full normal form requested, everything fetched again (generators / expansions unchanged, laws hold)",
+    "C08-4": "same served history (`generators_unchanged_by_expansion`, inverse-then-forward order)",
+    "C09-3": "history on one CenterManifold: `compute('real_full_normal')` detour between conversions; compare with a fresh object",
+    "C10-4": "add-on `c10ev.py`: `_propagate_dynsys(forward=+-1, event_fn=...)` for every method: stamp sign, monotone, hit time, state on the flow at the stamp",
+    "C11-3": "add-on `c11hist.py`: plain-Python closures from one `def` with different captured constants, one call after the other",
+    "C11-4": "same add-on: event never fires, user `min_step`, span not a multiple of it: end time and end state",
+    "C12-3": "method sweep (adaptive 8/5, fixed 8/4) with `end_state_on_signed_flow`: the end of each trajectory is the flow of its seed over its signed span",
+    "C13-4": "target interval written four ways ((2,1) / 1-D, ascending / descending): normalisation and spelling invariance of the run",
+    "C14-4": "history on one CenterManifoldMap: section p3, config re-assigned, p3 again with new options, sections alternated; compare with fresh maps",
+    "C15-3": "`_SynodicEngine.solve` on three arcs, serial vs thread pool, duplicate tolerances chosen so that each one matters (min point distance < time tol < min time gap)",
+    "C16-4": "Hamiltonian with linear part and energy offset (two shifted oscillators) against its exact flow",
+    "C17-3": "the twin stage not returning within a generous limit is a violation (`twin-integrations|do-not-return`) instead of a machinery failure",
+    "C18-4": "per-edge history: default call, call with `tol=1e-2`, default call again (identical coefficients, registry defaults unchanged)",
+    "C19-4": "ballistic tolerance larger than the delta-v limit (`bal2 = 11`) and such runs routed through engine + interface",
     "C20-2": "`spec/objects/probe/MCOrbitProbe.tla`: every writer out of every core state followed by every read",
 }
 
